@@ -112,6 +112,8 @@ def entries():
     add('cat', 2, lambda s: etl.cat(s[0], s[1]), S)
     add('cat:header', 1, lambda s: etl.cat(s[0], header=['v', 'k', 'z']), S)
     add('stack', 2, lambda s: etl.stack(s[0], s[1]), S)
+    add('stack:notrim', 2, lambda s: etl.stack(s[0], s[1], trim=False, missing='NA'), S)
+    add('stack:nopad', 2, lambda s: etl.stack(s[0], s[1], pad=False), S)
     add('annex', 2, lambda s: etl.annex(s[0], s[1]), S)
     add('addfield', 1, lambda s: etl.addfield(s[0], 'n', 42), S)
     add('addfield:fn', 1, lambda s: etl.addfield(s[0], 'n', lambda r: r['v'], index=1), S)
